@@ -193,7 +193,7 @@ def externalsOf (j : Json) : Except String Externals := do
 /-- `init_pkcs11_modules(config, name, so_login, rw_session)` -/
 def initModules (hsm : List HsmCfg) (name : Option String) (soLogin rw : Bool) (typedPin : String) :
     List HsmCfg → TokM (List P11Module)
-  | [] => if name.isSome && hsm.all (fun h => some h.label != name) then TokM.err .runtime else pure []
+  | [] => if name.isSome && name != some "" && hsm.all (fun h => some h.label != name) then TokM.err .runtime else pure []
   | h :: rest =>
     if name.isSome && name != some "" && some h.label != name then initModules hsm name soLogin rw typedPin rest
     else do
